@@ -22,6 +22,9 @@ func TestPropRebroadcast(t *testing.T) {
 		defer m.Close()
 		// the rebroadcast oracle runs inside every write of the machine
 		t.Repeat(m.Actions(m.Check))
+		if m.Abandoned {
+			return // inconclusive (counted by the machine), neither a pass nor a failure
+		}
 		shape := m.Shape()
 		has := func(s string) bool {
 			for _, x := range shape {
